@@ -280,9 +280,9 @@ Definition parse_hwloc_gen (fixed zeroed : bool) (dirty : N) (s : list N) : res 
   end.
 
 (* which variant /repo currently is.  fixed: /repo eea9042 (comma count from index 0).
-   zeroed: switch to true when patches/fix-C04-sscanf-unwritten-words.diff is committed *)
+   zeroed: /repo 2d8cfb1 (words zeroed, pending accumulator stored) *)
 Definition hwloc_sscanf_fixed : bool := true.
-Definition hwloc_sscanf_zeroed : bool := false.
+Definition hwloc_sscanf_zeroed : bool := true.
 Definition parse_hwloc := parse_hwloc_gen hwloc_sscanf_fixed hwloc_sscanf_zeroed.
 
 (* the words of [ul] that were never stored to *)
